@@ -39,6 +39,10 @@ def setup(prog: Program, kmin: int = 2):
             a, b = nf_to_aff(v.items[0], subst), nf_to_aff(v.items[1], subst)
             if a is not None and b is not None:
                 attrs[k] = (a, b)
+    # the extents every shape is expressed in: imax = i1 - i0, jmax = j1 - j0 (as Grid.__init__ defines them)
+    for k, want in (("imax", Aff.sym("imax")), ("jmax", Aff.sym("jmax"))):
+        if k not in attrs or not (attrs[k] == want):
+            raise AnalysisError(f"Grid.__init__: self.{k} is not the number of cells between the subgrid limits ({'i1 - i0' if k == 'imax' else 'j1 - j0'}); got {attrs.get(k)}")
     need = ("xmin", "xmax", "ymin", "ymax", "I", "J", "Iu", "Ju", "Iv", "Jv")
     for k in need:
         if k not in attrs:
